@@ -117,57 +117,78 @@ Definition linked_ok (prev : list (mcase * header)) (id : N) (link : bytes) : bo
        | _ => false
        end) prev.
 
+(* the type the member must have when its source object exists *)
+Definition expected_type (p : opts) (mode : N) : N :=
+  match p_dev p with
+  | Some (isc, _, _) => if isc then TypeChar else TypeBlock            (* dev= override *)
+  | None => if is_nil (p_target p) then obj_type mode else TypeSymlink  (* targ= override *)
+  end.
+
+(* same type -- or a hard link to an earlier member that is the same inode *)
+Definition type_ok (prev : list (mcase * header)) (p : opts) (st : stat) (h : header) : bool :=
+  let ty := expected_type p (st_mode st) in
+  (h_type h =? ty)
+  || ((ty =? TypeReg) && (h_type h =? TypeLink) && (1 <? st_nlink st)
+      && linked_ok prev (st_id st) (h_link h)).
+
+(* fields every kind of member has *)
+Definition common_fields_ok (m : mcase) (o : object) (h : header) : bool :=
+  let p := m_opts (mc_member m) in
+  let st := o_st o in
+  (N.land (h_mode h) 4095 =? apply_mod (mc_mod m) (N.land (st_mode st) 4095))
+  && (h_uid h =? optN (p_uid p) (st_uid st))
+  && (h_gid h =? optN (p_gid p) (st_gid st))
+  && Z.eqb (h_mtime h) (st_mtime st)
+  && list_beq xattr_beq (h_xattrs h) (o_xattrs o).
+(* size and bytes, link target, device numbers *)
+Definition kind_fields_ok (p : opts) (o : object) (h : header) : bool :=
+  let st := o_st o in
+  (if h_type h =? TypeReg then (h_size h =? st_size st) && beq (h_data h) (o_data o)
+   else if h_type h =? TypeLink then true
+   else (h_size h =? 0) && is_nil (h_data h))
+  && (if h_type h =? TypeSymlink
+      then beq (h_link h) (if is_nil (p_target p) then o_link o else p_target p) else true)
+  && (if (h_type h =? TypeChar) || (h_type h =? TypeBlock)
+      then match p_dev p with
+           | Some (_, ma, mi) => (h_major h =? ma) && (h_minor h =? mi)
+           | None => (h_major h =? ref_major (st_rdev st)) && (h_minor h =? ref_minor (st_rdev st))
+           end
+      else true).
+Definition present_fields_ok (m : mcase) (o : object) (h : header) : bool :=
+  common_fields_ok m o h && kind_fields_ok (m_opts (mc_member m)) o h.
+
+(* a member synthesised for an absent path *)
+Definition absent_type (p : opts) : N :=
+  match p_ltype p, p_dev p with
+  | LDir, _ => TypeDir
+  | LSym, _ => TypeSymlink
+  | LDev, Some (isc, _, _) => if isc then TypeChar else TypeBlock
+  | _, _ => 255                        (* nothing else can be synthesised *)
+  end.
+Definition absent_ok (c : case) (m : mcase) (h : header) : bool :=
+  let p := m_opts (mc_member m) in
+  let ty := absent_type p in
+  (h_type h =? ty)
+  && (h_uid h =? optN (p_uid p) 0) && (h_gid h =? optN (p_gid p) 0)       (* root ownership *)
+  && (N.land (N.land (h_mode h) 4095) (mod_touched (mc_mod m))
+      =? N.land (apply_mod (mc_mod m) 0) (mod_touched (mc_mod m)))
+  && usable_outside (mod_touched (mc_mod m)) ty (N.land (h_mode h) 4095)
+  && Z.leb (c_t0 c) (h_mtime h) && Z.leb (h_mtime h) (c_t1 c)
+  && is_nil (h_xattrs h) && (h_size h =? 0) && is_nil (h_data h)
+  && (if ty =? TypeSymlink then beq (h_link h) (p_target p) else true)
+  && match p_dev p with
+     | Some (_, ma, mi) => if (ty =? TypeChar) || (ty =? TypeBlock)
+                           then (h_major h =? ma) && (h_minor h =? mi) else true
+     | None => true
+     end.
+
 Definition member_ok (c : case) (prev : list (mcase * header)) (m : mcase) (h : header) : bool :=
   let p := m_opts (mc_member m) in
   beq (h_name h) (dot :: p_name p)
   &&
   match m_src (mc_member m) with
-  | SPresent o =>
-    let st := o_st o in
-    let ty := match p_dev p with
-              | Some (isc, _, _) => if isc then TypeChar else TypeBlock
-              | None => if is_nil (p_target p) then obj_type (st_mode st) else TypeSymlink
-              end in
-    (* same type -- or a hard link to an earlier member that is the same inode *)
-    ((h_type h =? ty)
-     || ((ty =? TypeReg) && (h_type h =? TypeLink) && (1 <? st_nlink st)
-         && linked_ok prev (st_id st) (h_link h)))
-    && (N.land (h_mode h) 4095 =? apply_mod (mc_mod m) (N.land (st_mode st) 4095))
-    && (h_uid h =? optN (p_uid p) (st_uid st))
-    && (h_gid h =? optN (p_gid p) (st_gid st))
-    && Z.eqb (h_mtime h) (st_mtime st)
-    && list_beq xattr_beq (h_xattrs h) (o_xattrs o)
-    && (if h_type h =? TypeReg then (h_size h =? st_size st) && beq (h_data h) (o_data o)
-        else if h_type h =? TypeLink then true
-        else (h_size h =? 0) && is_nil (h_data h))
-    && (if h_type h =? TypeSymlink
-        then beq (h_link h) (if is_nil (p_target p) then o_link o else p_target p) else true)
-    && (if (h_type h =? TypeChar) || (h_type h =? TypeBlock)
-        then match p_dev p with
-             | Some (_, ma, mi) => (h_major h =? ma) && (h_minor h =? mi)
-             | None => (h_major h =? ref_major (st_rdev st)) && (h_minor h =? ref_minor (st_rdev st))
-             end
-        else true)
-  | SAbsent =>
-    let ty := match p_ltype p, p_dev p with
-              | LDir, _ => TypeDir
-              | LSym, _ => TypeSymlink
-              | LDev, Some (isc, _, _) => if isc then TypeChar else TypeBlock
-              | _, _ => 255                        (* nothing else can be synthesised *)
-              end in
-    (h_type h =? ty)
-    && (h_uid h =? optN (p_uid p) 0) && (h_gid h =? optN (p_gid p) 0)       (* root ownership *)
-    && (N.land (N.land (h_mode h) 4095) (mod_touched (mc_mod m))
-        =? N.land (apply_mod (mc_mod m) 0) (mod_touched (mc_mod m)))
-    && usable_outside (mod_touched (mc_mod m)) ty (N.land (h_mode h) 4095)
-    && Z.leb (c_t0 c) (h_mtime h) && Z.leb (h_mtime h) (c_t1 c)
-    && is_nil (h_xattrs h) && (h_size h =? 0) && is_nil (h_data h)
-    && (if ty =? TypeSymlink then beq (h_link h) (p_target p) else true)
-    && match p_dev p with
-       | Some (_, ma, mi) => if ty =? TypeSymlink then true else if ty =? TypeDir then true
-                             else (h_major h =? ma) && (h_minor h =? mi)
-       | None => true
-       end
+  | SPresent o => type_ok prev p (o_st o) h && present_fields_ok m o h
+  | SAbsent => absent_ok c m h
   | SLstatErr => false
   end.
 
@@ -243,6 +264,7 @@ Definition object_ok (o : object) : bool :=
   && sorted_names (map fst (o_xattrs o)) && nodupb (map fst (o_xattrs o))
   && forallb (fun x => negb (is_nil (fst x)) && no_nul (fst x)) (o_xattrs o)
   && (if obj_type (st_mode st) =? TypeReg then o_dlen o =? st_size st else true)
+  && (if st_size st =? 0 then is_nil (o_data o) else true)
   && (if obj_type (st_mode st) =? TypeSymlink then negb (is_nil (o_link o)) else true).
 
 Definition member_wf (m : mcase) : bool :=
